@@ -137,6 +137,15 @@ FIXED = [
     ("C20", "3750543", "`var r=/b/gu; r.test('\\u{1F600}b'); r.lastIndex` was 2 where exec leaves 3: test() had its own copy of the bookkeeping without the UTF-16 conversion of unicode mode"),
     ("C08", "0f27ed1", "`Object.create(p, {x: {value: 5}}).x` ran the getter of p (own data did not shadow an inherited accessor); `{get x(){return 2}, x: 1}.x` was 2; `delete o.x` kept an accessor; `'x' in {get x(){}}` was false"),
     ("C16", "b54eda3", "`'abc'.replace(/b/, function(m){return m.toUpperCase()})` was 'a[object Object]c': a function given as the replacement was converted to text instead of being called"),
+    ("C04", "3bbbfc1", "`Math.abs(` nested 200 times, 50 nested function expressions or a sum of 20000 terms left eval as the host's RecursionError (parser and compiler recurse per nesting level)"),
+    ("C14", "3bbbfc1", "big but flat programs (`1+1+...` with 20000 terms) ended in RecursionError instead of running or being refused with a JSError"),
+    ("C01", "3bbbfc1", "3000 nested parentheses took 20 s whatever the time limit: the limit started with execution, and the arrow-function look-ahead re-reads nested parentheses at every level"),
+    ("C04", "a4f92c0", "the string literal `\"\\u{FFFFFFFFFFFF}\"` left eval as OverflowError (chr() beyond the code point range; only ValueError was handled)"),
+    ("C13", "a4f92c0", "`\"\\x+1\"` and `\"\\u{1_0}\"` were accepted: escape digits went through int(), which takes a sign and underscores"),
+    ("C10", "729fe71", "`/\\u{+41}/u` and `/\\u{4_1}/u` were accepted as A: escape digits went through int()"),
+    ("C04", "e7f3d77", "`var a=[]; a.length=1e9` left eval as the host's MemoryError: lengths up to 2**32-1 were allocated at once"),
+    ("C17", "8c86225", "`var a=new Uint8Array(2); a.set([1,2,3], 1)` wrote what fitted and dropped the rest; a negative or too large offset was ignored (ECMAScript: RangeError, nothing written)"),
+    ("C18", "3476877", "`1/Number('-0')`, `1/(+'-0')` and `1/JSON.parse('-0')` were +Infinity: the text went through int(), which has no negative zero"),
 ]
 
 
